@@ -16,7 +16,7 @@ namespace Never.C09
 open Never Mem
 
 /-- `gc_new` establishes the invariant (the C code itself needs `mem_size ≥ 2`) -/
-theorem inv_init (n : Nat) (h : 2 ≤ n) : Inv (Gc.new n) := inv_new n h
+theorem inv_init (n : Nat) (h : 1 ≤ n) : Inv (Gc.new n) := inv_new n h
 
 /-- every well-typed operation preserves the invariant -/
 theorem inv_step {g g' : Gc} {op : Op} (inv : Inv g) (wt : g.wellTyped op = true)
@@ -79,7 +79,7 @@ theorem run_headroom {g g' : Gc} {st : List Slot} {gp : Nat} (inv : Inv g)
     simpa [Gc.wantsCollect] using hw
 
 /-- **the invariant holds after every history** (all op sequences, all lengths) -/
-theorem inv_history (n : Nat) (h : 2 ≤ n) (ops : List Op) : Inv ((Gc.new n).exec ops) := by
+theorem inv_history (n : Nat) (h : 1 ≤ n) (ops : List Op) : Inv ((Gc.new n).exec ops) := by
   suffices ∀ g, Inv g → Inv (g.exec ops) from this _ (inv_init n h)
   induction ops with
   | nil => intro g i; exact i
